@@ -468,6 +468,10 @@ fn uint_bitwise<const L: usize>(c: &Case, rep: &mut Rep) {
     let xor: Vec<u64> = x.iter().zip(y).map(|(a, b)| a ^ b).collect();
     let not: Vec<u64> = x.iter().map(|a| !a).collect();
     ex(rep, "bitand", &ul(&ux.bitand(&uy)), &and);
+    // `bitand_limb` ANDs every limb with the same word (Uint and Int forms)
+    let andl: Vec<u64> = x.iter().map(|a| a & y[0]).collect();
+    ex(rep, "bitand_limb", &ul(&ux.bitand_limb(Limb(y[0]))), &andl);
+    ex(rep, "Int::bitand_limb", &ul(ux.as_int().bitand_limb(Limb(y[0])).as_uint()), &andl);
     ex(rep, "wrapping_and", &ul(&ux.wrapping_and(&uy)), &and);
     ex(rep, "op_and", &ul(&(ux & uy)), &and);
     ex(rep, "op_and_ref", &ul(&(&ux & &uy)), &and);
@@ -847,6 +851,8 @@ fn c_boxed_bitwise(c: &Case, rep: &mut Rep) {
     let xor: Vec<u64> = xp.iter().zip(&yp).map(|(a, b)| a ^ b).collect();
     let not: Vec<u64> = x.iter().map(|a| !a).collect();
     exb(rep, "boxed.bitand", &b1.bitand(&b2), &and);
+    let andl: Vec<u64> = x.iter().map(|a| a & y[0]).collect();
+    exb(rep, "boxed.bitand_limb", &b1.bitand_limb(Limb(y[0])), &andl);
     exb(rep, "boxed.wrapping_and", &b1.wrapping_and(&b2), &and);
     exb(rep, "boxed.op_and", &(b1.clone() & b2.clone()), &and);
     exb(rep, "boxed.op_and_ref", &(&b1 & &b2), &and);
